@@ -6,79 +6,102 @@
    (tonic/src/transport/server/mod.rs).
 
    Environment actions are the stimuli the harness can inject: Offer(c) a connection, Send(k) a call,
-   Fire the signal, Release(k) one step of a gated handler, ClientDrop(c).
+   Fire the signal, Release(k) one step of a gated handler, ClientDrop(c), EndIncoming (the incoming stream
+   ends), Age(c) (max_connection_age elapses for connection c; only when Aging).
+   The hook events of feature verif-hooks name the system actions one to one (Trace_ShutdownMech):
+     accepted -> Accept, signal_observed -> Observe, incoming_ended -> ObserveEnd, broadcast -> Broadcast,
+     all_closed -> Resolve, conn_saw_signal -> SeeSignal, conn_aged -> Age, conn_closed -> Close / DeadClose.
    Named deviations: WaitForConns = FALSE drops `signal_tx.closed().await`; DrainGracefully = FALSE
    replaces graceful_shutdown by dropping the connection.                                          *)
 EXTENDS Naturals, FiniteSets, TLC
 CONSTANTS Conns, Calls, ConnOf, Items,     \* ConnOf: Calls -> Conns; Items[k]: handler steps before the call completes
-          WaitForConns, DrainGracefully
+          WaitForConns, DrainGracefully,
+          Aging                            \* the server is configured with max_connection_age
 VARIABLES sig,      \* "idle" | "fired" | "observed"  (observed = the select! loop has broken out)
           conn,     \* [Conns -> {"none", "offered", "open", "draining", "closed"}]
           call,     \* [Calls -> [ph : {"unsent", "sent", "accepted", "done", "failed"}, left : Nat]]
           bcast,    \* signal_tx.send(()) done
           resolved, \* the serve future has returned
-          dropped   \* history: connections whose client went away (ClientDrop)
-vars == <<sig, conn, call, bcast, resolved, dropped>>
+          dropped,  \* history: connections whose client went away (ClientDrop)
+          ended     \* the incoming stream has no further connections to offer (its sender is gone)
+vars == <<sig, conn, call, bcast, resolved, dropped, ended>>
 
 Init == /\ sig = "idle" /\ conn = [c \in Conns |-> "none"]
         /\ call = [k \in Calls |-> [ph |-> "unsent", left |-> Items[k], acc |-> FALSE]] /\ bcast = FALSE /\ resolved = FALSE
-        /\ dropped = {}
+        /\ dropped = {} /\ ended = FALSE
 InFlight(c) == { k \in Calls : ConnOf[k] = c /\ call[k].ph \in {"sent", "accepted"} }
 
 \* ---- environment (stimuli)
-Offer(c) == conn[c] = "none" /\ conn' = [conn EXCEPT ![c] = "offered"] /\ UNCHANGED <<sig, call, bcast, resolved, dropped>>
-Fire == sig = "idle" /\ sig' = "fired" /\ UNCHANGED <<conn, call, bcast, resolved, dropped>>
-Send(k) == /\ call[k].ph = "unsent" /\ conn[ConnOf[k]] \in {"open", "draining"}
-           /\ call' = [call EXCEPT ![k].ph = "sent"] /\ UNCHANGED <<sig, conn, bcast, resolved, dropped>>
+Offer(c) == ~ended /\ conn[c] = "none" /\ conn' = [conn EXCEPT ![c] = "offered"] /\ UNCHANGED <<sig, call, bcast, resolved, dropped, ended>>
+Fire == sig = "idle" /\ sig' = "fired" /\ UNCHANGED <<conn, call, bcast, resolved, dropped, ended>>
+\* the client side of a connection is usable as soon as it was offered: the request then waits in the transport
+Send(k) == /\ call[k].ph = "unsent" /\ conn[ConnOf[k]] \in {"offered", "open", "draining"} /\ ConnOf[k] \notin dropped
+           /\ call' = [call EXCEPT ![k].ph = "sent"] /\ UNCHANGED <<sig, conn, bcast, resolved, dropped, ended>>
 Release(k) == /\ call[k].ph = "accepted" /\ conn[ConnOf[k]] # "closed"
               /\ call' = [call EXCEPT ![k] = IF @.left = 0 THEN [ph |-> "done", left |-> 0, acc |-> TRUE] ELSE [@ EXCEPT !.left = @ - 1]]
-              /\ UNCHANGED <<sig, conn, bcast, resolved, dropped>>
-ClientDrop(c) == /\ conn[c] \in {"open", "draining"}
-                 /\ conn' = [conn EXCEPT ![c] = "closed"] /\ dropped' = dropped \cup {c}
+              /\ UNCHANGED <<sig, conn, bcast, resolved, dropped, ended>>
+ClientDrop(c) == /\ conn[c] \in {"offered", "open", "draining"} /\ c \notin dropped
+                 /\ conn' = [conn EXCEPT ![c] = IF @ = "offered" THEN @ ELSE "closed"] /\ dropped' = dropped \cup {c}
                  /\ call' = [k \in Calls |-> IF ConnOf[k] = c /\ call[k].ph \in {"sent", "accepted"} THEN [call[k] EXCEPT !.ph = "failed"] ELSE call[k]]
-                 /\ UNCHANGED <<sig, bcast, resolved>>
+                 /\ UNCHANGED <<sig, bcast, resolved, ended>>
+EndIncoming == ~ended /\ ended' = TRUE /\ UNCHANGED <<sig, conn, call, bcast, resolved, dropped>>
+\* max_connection_age elapsed: the connection task calls graceful_shutdown on its own
+Age(c) == /\ Aging /\ conn[c] = "open"
+          /\ conn' = [conn EXCEPT ![c] = "draining"] /\ UNCHANGED <<sig, call, bcast, resolved, dropped, ended>>
 \* ---- serve_internal's loop
 Accept(c) == /\ sig # "observed" /\ conn[c] = "offered"              \* incoming.next() arm; races with Observe when both are ready
-             /\ conn' = [conn EXCEPT ![c] = "open"] /\ UNCHANGED <<sig, call, bcast, resolved, dropped>>
-Observe == sig = "fired" /\ sig' = "observed" /\ UNCHANGED <<conn, call, bcast, resolved, dropped>>      \* signal arm: break
-Broadcast == sig = "observed" /\ ~bcast /\ bcast' = TRUE /\ UNCHANGED <<sig, conn, call, resolved, dropped>>
+             /\ conn' = [conn EXCEPT ![c] = "open"] /\ UNCHANGED <<sig, call, bcast, resolved, dropped, ended>>
+Observe == sig = "fired" /\ sig' = "observed" /\ UNCHANGED <<conn, call, bcast, resolved, dropped, ended>>      \* signal arm: break
+\* incoming.next() = None: break, exactly like the signal arm
+ObserveEnd == /\ ended /\ sig # "observed" /\ \A c \in Conns : conn[c] # "offered"
+              /\ sig' = "observed" /\ UNCHANGED <<conn, call, bcast, resolved, dropped, ended>>
+Broadcast == sig = "observed" /\ ~bcast /\ bcast' = TRUE /\ UNCHANGED <<sig, conn, call, resolved, dropped, ended>>
 Resolve == /\ bcast /\ ~resolved
            /\ (~WaitForConns \/ \A c \in Conns : conn[c] \in {"none", "offered", "closed"})      \* signal_tx.closed(): no receiver left
-           /\ resolved' = TRUE /\ UNCHANGED <<sig, conn, call, bcast, dropped>>
+           /\ resolved' = TRUE /\ UNCHANGED <<sig, conn, call, bcast, dropped, ended>>
 \* ---- serve_connection's task
 SeeSignal(c) == /\ bcast /\ conn[c] = "open"
                 /\ IF DrainGracefully THEN conn' = [conn EXCEPT ![c] = "draining"] /\ UNCHANGED call
                    ELSE /\ conn' = [conn EXCEPT ![c] = "closed"]
                         /\ call' = [k \in Calls |-> IF ConnOf[k] = c /\ call[k].ph \in {"sent", "accepted"} THEN [call[k] EXCEPT !.ph = "failed"] ELSE call[k]]
-                /\ UNCHANGED <<sig, bcast, resolved, dropped>>
+                /\ UNCHANGED <<sig, bcast, resolved, dropped, ended>>
 ServerAccept(k) == /\ call[k].ph = "sent" /\ conn[ConnOf[k]] = "open"
-                   /\ call' = [call EXCEPT ![k].ph = "accepted", ![k].acc = TRUE] /\ UNCHANGED <<sig, conn, bcast, resolved, dropped>>
+                   /\ call' = [call EXCEPT ![k].ph = "accepted", ![k].acc = TRUE] /\ UNCHANGED <<sig, conn, bcast, resolved, dropped, ended>>
 \* a stream that arrives on a draining connection: h2 may still admit it (it raced the GOAWAY) or refuse it
 LateStream(k) == /\ call[k].ph = "sent" /\ conn[ConnOf[k]] = "draining"
                  /\ \/ call' = [call EXCEPT ![k].ph = "accepted", ![k].acc = TRUE]
                     \/ call' = [call EXCEPT ![k].ph = "failed"]
-                 /\ UNCHANGED <<sig, conn, bcast, resolved, dropped>>
+                 /\ UNCHANGED <<sig, conn, bcast, resolved, dropped, ended>>
 Close(c) == /\ conn[c] = "draining" /\ InFlight(c) = {}
-            /\ conn' = [conn EXCEPT ![c] = "closed"] /\ UNCHANGED <<sig, call, bcast, resolved, dropped>>
+            /\ conn' = [conn EXCEPT ![c] = "closed"] /\ UNCHANGED <<sig, call, bcast, resolved, dropped, ended>>
+\* a connection whose client had gone before it was accepted: the handshake fails and the task ends
+DeadClose(c) == /\ conn[c] = "open" /\ c \in dropped
+                /\ conn' = [conn EXCEPT ![c] = "closed"] /\ UNCHANGED <<sig, call, bcast, resolved, dropped, ended>>
 \* after the serve future resolved the process may exit: detached connection tasks die with it
 Teardown(c) == /\ resolved /\ conn[c] \in {"open", "draining"}
                /\ conn' = [conn EXCEPT ![c] = "closed"]
                /\ call' = [k \in Calls |-> IF ConnOf[k] = c /\ call[k].ph \in {"sent", "accepted"} THEN [call[k] EXCEPT !.ph = "failed"] ELSE call[k]]
-               /\ UNCHANGED <<sig, bcast, resolved, dropped>>
-Env == (\E c \in Conns : Offer(c) \/ ClientDrop(c)) \/ (\E k \in Calls : Send(k) \/ Release(k)) \/ Fire
-Sys == (\E c \in Conns : Accept(c) \/ SeeSignal(c) \/ Close(c) \/ Teardown(c)) \/ (\E k \in Calls : ServerAccept(k) \/ LateStream(k))
-       \/ Observe \/ Broadcast \/ Resolve
+               /\ UNCHANGED <<sig, bcast, resolved, dropped, ended>>
+\* the incoming stream is dropped with the resolved serve future: connections it had queued but never handed out are closed
+Abandon(c) == /\ resolved /\ conn[c] = "offered"
+              /\ conn' = [conn EXCEPT ![c] = "closed"]
+              /\ call' = [k \in Calls |-> IF ConnOf[k] = c /\ call[k].ph = "sent" THEN [call[k] EXCEPT !.ph = "failed"] ELSE call[k]]
+              /\ UNCHANGED <<sig, bcast, resolved, dropped, ended>>
+Env == (\E c \in Conns : Offer(c) \/ ClientDrop(c) \/ Age(c)) \/ (\E k \in Calls : Send(k) \/ Release(k)) \/ Fire \/ EndIncoming
+Sys == (\E c \in Conns : Accept(c) \/ SeeSignal(c) \/ Close(c) \/ DeadClose(c) \/ Teardown(c) \/ Abandon(c)) \/ (\E k \in Calls : ServerAccept(k) \/ LateStream(k))
+       \/ Observe \/ ObserveEnd \/ Broadcast \/ Resolve
 Next == Env \/ Sys
-Fairness == /\ \A c \in Conns : WF_vars(SeeSignal(c)) /\ WF_vars(Close(c))
+Fairness == /\ \A c \in Conns : WF_vars(SeeSignal(c)) /\ WF_vars(Close(c)) /\ WF_vars(DeadClose(c)) /\ WF_vars(Accept(c))
             /\ \A k \in Calls : WF_vars(Release(k)) /\ WF_vars(ServerAccept(k)) /\ WF_vars(LateStream(k))
-            /\ WF_vars(Observe) /\ WF_vars(Broadcast) /\ WF_vars(Resolve)
+            /\ WF_vars(Observe) /\ WF_vars(ObserveEnd) /\ WF_vars(Broadcast) /\ WF_vars(Resolve)
 Spec == Init /\ [][Next]_vars /\ Fairness
 
 (* ------------------------------------------------------------------ Contract (C13) *)
 \* every call the server had accepted runs to completion: it fails only if its own client went away
 NoLoss == \A k \in Calls : (call[k].ph = "failed" /\ call[k].acc) => ConnOf[k] \in dropped
-NoAcceptAfter == [][\A c \in Conns : (sig = "observed" /\ conn[c] = "offered") => conn'[c] = "offered"]_vars
+NoAcceptAfter == [][\A c \in Conns : (sig = "observed" /\ conn[c] = "offered") => conn'[c] # "open"]_vars
 ResolveLate == resolved => \A c \in Conns : conn[c] \in {"none", "offered", "closed"}
 AcceptedCompletes == \A k \in Calls : (call[k].ph = "accepted") ~> (call[k].ph \in {"done", "failed"})
 ResolveEventually == (sig = "fired") ~> resolved
+EndResolves == ended ~> resolved
 =============================================================================
